@@ -45,6 +45,10 @@ class LoopState(object):
         self.required_names = ()
         self.split_first = False  # fork the arbitrary iteration into {first iteration from the entry state, later one}
         self.iterations_seen = 0
+        self.mutated = {}  # name -> mutated only through a method call (True) / by a store (False)
+        # peel_last: the state after the loop is the state after an arbitrary iteration that turned out to be
+        # the last one (or the entry state for zero iterations) instead of a havoc constrained by the invariant
+        self.peel_last = False
 
 
 REGISTRY = {}
@@ -61,11 +65,32 @@ def any_changed():
     return ch
 
 
+def _snapshot(v, lid, name, state):
+    """entry value of an object that the body mutates in place"""
+    from .stubtorch import Tensor
+    from .seq import GhostList
+    if isinstance(v, Tensor):
+        return copy.copy(v)
+    if isinstance(v, GhostList):
+        return v.snapshot()
+    if v is None or isinstance(v, (bool, int, float, str, tuple, SBool, SInt, SReal)):
+        return v
+    if state.mutated.get(name) and not isinstance(v, (list, dict, set)):
+        return v  # a method call on a contract object: its state is that object's own contract
+    if state.user_havoc is None:
+        raise OutOfSubset("loop %s mutates %r (a %s) in place and no havoc contract is given"
+                          % (lid, name, type(v).__name__))
+    return v
+
+
 # -- value descriptors ---------------------------------------------------------
 def describe(v):
     from .stubtorch import Tensor
+    from .seq import GhostList
     if v is None:
         return ("none",)
+    if isinstance(v, GhostList):
+        return ("glist",)
     if isinstance(v, Tensor):
         return ("tensor", v.kind if v.kind != "sc" or not getattr(v, "_is_zeros", False) else "sc",
                 tuple(repr(d) for d in v._shape), v.vaxes, v.dtype.name, bool(v.requires_grad))
@@ -75,6 +100,8 @@ def describe(v):
         return ("int",)
     if isinstance(v, (float, SReal)):
         return ("real",)
+    if isinstance(v, tuple) and type(v) is tuple:
+        return ("tuple", tuple(describe(e) for e in v))
     return ("obj", id(v))
 
 
@@ -100,6 +127,10 @@ def fresh_like(desc, exemplar, name):
         return fresh_real(name)
     if k == "obj":
         return exemplar
+    if k == "glist":
+        return exemplar.havocked(name)
+    if k == "tuple":
+        return tuple(fresh_like(d, e, "%s_%d" % (name, i)) for i, (d, e) in enumerate(zip(desc[1], exemplar)))
     if k == "tensor":
         kind = desc[1]
         ex = exemplar
@@ -123,6 +154,9 @@ def same_value(a, b):
     from .stubtorch import Tensor
     if a is b:
         return True
+    from .seq import GhostList
+    if isinstance(a, GhostList) or isinstance(b, GhostList):
+        return isinstance(a, GhostList) and isinstance(b, GhostList) and a.same_content(b)
     if isinstance(a, Tensor) and isinstance(b, Tensor):
         if a.kind != b.kind:
             return False
@@ -133,6 +167,16 @@ def same_value(a, b):
         if a.kind == "bool":
             return a.v == b.v
         return a.v == b.v if not isinstance(a.v, tuple) else a.v == b.v
+    if type(a) is tuple and type(b) is tuple:
+        if len(a) != len(b):
+            return False
+        parts = [same_value(x, y) for x, y in zip(a, b)]
+        if any(p is False for p in parts):
+            return False
+        parts = [p for p in parts if p is not True]
+        if not parts:
+            return True
+        return z3.And(*[as_z3_bool(p) for p in parts])
     if isinstance(a, (bool, SBool)) and isinstance(b, (bool, SBool)):
         return as_z3_bool(a) == as_z3_bool(b)
     if isinstance(a, (int, float, SInt, SReal)) and isinstance(b, (int, float, SInt, SReal)) \
@@ -150,6 +194,9 @@ class Loop(object):
         self.lid = lid
         self.state = state
         self.entry = dict(env)
+        for n in state.mutated:
+            if n in self.entry:
+                self.entry[n] = _snapshot(self.entry[n], lid, n, state)
         self.it = None
         self.kind = None
         st = state
@@ -186,6 +233,9 @@ class Loop(object):
             else:
                 e["__i"] = SInt(z3.If(it.hi_e >= it.lo_e, it.hi_e, it.lo_e))
         e["__phase"] = phase
+        e["__loop"] = self
+        e["__head"] = getattr(self, "head", None)
+        e["__first"] = self._first
         return e
 
     def _entry_check(self):
@@ -217,16 +267,27 @@ class Loop(object):
 
     def hv(self, name):
         st = self.state
+        if st.peel_last and not self._arb:
+            return self.entry[name]   # zero iterations: the entry state
         if name in st.unchanged:
             v = self.entry[name]
+            if name in st.mutated:
+                v = _snapshot(v, self.lid, name, st)
         else:
             descs = st.templates[name]
             k = ctx().choose(len(descs), "tmpl_%s" % name) if len(descs) > 1 else 0
             d = descs[k]
             if self._first:
                 v = self.entry[name]
+                if name in st.mutated:
+                    v = _snapshot(v, self.lid, name, st)
             elif d[0] == "obj":
+                if st.user_havoc is None:
+                    raise OutOfSubset("loop %s rebinds %r to a different %s object and no havoc contract is given"
+                                      % (self.lid, name, type(self.entry[name]).__name__))
                 v = self.entry[name]
+            elif d[0] == "glist":
+                v = self.entry[name].havocked(name)  # from *this* path's entry state
             else:
                 v = fresh_like(d, st.exemplars[(name, d)], name)
         self._havocked[name] = v
@@ -234,6 +295,10 @@ class Loop(object):
 
     def after_havoc(self, env):
         st = self.state
+        self.head = dict(env)
+        self.head_ncalls = len(ctx().calls)
+        if st.peel_last and not self._arb:
+            return
         env = self._env(env, "head" if self._arb else "exit")
         if self._first:
             return
@@ -303,10 +368,23 @@ class Loop(object):
         if st.user_invariants is not None:
             for label, cond in st.user_invariants(self._env(env, "end"), self.entry):
                 c.check("%s.inv_preserved.%s" % (self.lid, label), _cond(cond), kind="invariant")
+        if st.peel_last:
+            it = self.it
+            if isinstance(it, SymRange):
+                if c.branch(self._target.e + 1 < it.hi_e):
+                    raise PathEnd()     # not the last iteration: covered by the arbitrary loop head
+                c.cover("%s.exit_after_last_iteration" % self.lid)
+                return
+            if it is None:
+                c.cover("%s.exit_after_last_iteration" % self.lid)
+                return  # while: the rewritten code re-evaluates the guard
         raise PathEnd()
 
     def exhausted(self, env):
-        ctx().cover("%s.exit" % self.lid)
+        c = ctx()
+        c.cover("%s.exit" % self.lid)
+        if self.state.peel_last and isinstance(self.it, SymRange):
+            c.assume(self.it.hi_e <= self.it.lo_e)
 
 
 def _cond(c):
@@ -382,6 +460,72 @@ class _Assigned(ast.NodeVisitor):
     visit_SetComp = visit_DictComp = visit_GeneratorExp = visit_ListComp
 
 
+MUTATORS = {"append", "extend", "insert", "pop", "remove", "clear", "update", "add", "setdefault", "popitem",
+            "sort", "reverse", "add_", "sub_", "mul_", "div_", "copy_", "zero_", "fill_", "discard"}
+
+
+class _Mutated(ast.NodeVisitor):
+    """names whose object is mutated in place: x[i] = .., x.a = .., x op= .., x.append(..)"""
+
+    def __init__(self):
+        self.names = []
+        self.by_call_only = set()
+
+    def _add(self, n, call=False):
+        if n not in self.names:
+            self.names.append(n)
+            if call:
+                self.by_call_only.add(n)
+        elif not call:
+            self.by_call_only.discard(n)
+
+    def _base(self, node):
+        while isinstance(node, (ast.Subscript, ast.Attribute)):
+            node = node.value
+        return node.id if isinstance(node, ast.Name) else None
+
+    def visit_Subscript(self, node):
+        if isinstance(node.ctx, (ast.Store, ast.Del)):
+            b = self._base(node)
+            if b:
+                self._add(b)
+        self.generic_visit(node)
+
+    def visit_Attribute(self, node):
+        if isinstance(node.ctx, (ast.Store, ast.Del)):
+            b = self._base(node)
+            if b:
+                self._add(b)
+        self.generic_visit(node)
+
+    def visit_AugAssign(self, node):
+        b = self._base(node.target)
+        if b:
+            self._add(b)
+        self.generic_visit(node)
+
+    def visit_Call(self, node):
+        f = node.func
+        if isinstance(f, ast.Attribute) and f.attr in MUTATORS and isinstance(f.value, ast.Name):
+            self._add(f.value.id, call=True)
+        self.generic_visit(node)
+
+    def visit_FunctionDef(self, node):
+        pass
+
+    visit_AsyncFunctionDef = visit_FunctionDef
+
+    def visit_Lambda(self, node):
+        pass
+
+
+def mutated_names(stmts):
+    v = _Mutated()
+    for s in stmts:
+        v.visit(s)
+    return [(n, n in v.by_call_only) for n in v.names]
+
+
 def assigned_names(stmts, extra_targets=()):
     v = _Assigned()
     for t in extra_targets:
@@ -395,12 +539,37 @@ def _parse_stmt(src):
     return ast.parse(textwrap.dedent(src)).body
 
 
+class _ListLifter(ast.NodeTransformer):
+    """T2: `name = []` / `name: T = [..]`  ->  `name = __pv_list([..])` (lists that grow in cut loops)"""
+
+    def __init__(self, names):
+        self.names = names
+        self.lifted = []
+
+    def _lift(self, node, tname):
+        if isinstance(node.value, ast.List) and (self.names is None or tname in self.names):
+            node.value = ast.Call(func=ast.Name(id="__pv_list", ctx=ast.Load()), args=[node.value], keywords=[])
+            self.lifted.append(tname)
+        return node
+
+    def visit_Assign(self, node):
+        if len(node.targets) == 1 and isinstance(node.targets[0], ast.Name):
+            return self._lift(node, node.targets[0].id)
+        return node
+
+    def visit_AnnAssign(self, node):
+        if isinstance(node.target, ast.Name) and node.value is not None:
+            return self._lift(node, node.target.id)
+        return node
+
+
 class _Rewriter(ast.NodeTransformer):
     def __init__(self, prefix, cut):
         self.prefix = prefix
         self.cut = cut  # set of ordinals, or None = all
         self.ordinal = -1
         self.loops = {}  # lid -> carried names
+        self.mutated = {}  # lid -> names whose objects are mutated in place
         self.depth_fn = 0
 
     def visit_FunctionDef(self, node):
@@ -426,7 +595,12 @@ class _Rewriter(ast.NodeTransformer):
             return node
         lid = "%s#L%d" % (self.prefix, k)
         carried = assigned_names(node.body, [node.target] if is_for else [])
+        mutated = mutated_names(node.body)
+        for n, _ in mutated:
+            if n not in carried:
+                carried.append(n)
         self.loops[lid] = carried
+        self.mutated[lid] = dict(mutated)
         L = "__pv_L%d" % k
         pre = "%s = __pv_loop_begin(%r, locals())\n" % (L, lid)
         hv = "".join("if %s.bound(%r): %s = %s.hv(%r)\n" % (L, n, n, L, n) for n in carried)
@@ -452,10 +626,14 @@ class _Rewriter(ast.NodeTransformer):
             guard = ast.If(test=ast.UnaryOp(op=ast.Not(), operand=copy.deepcopy(node.test)),
                            body=_parse_stmt("__pv_end_path()"), orelse=[])
             arb.append(guard)
+        tail = _parse_stmt("%s.end_iter(locals())" % L)
+        if not is_for:
+            tail.append(ast.If(test=copy.deepcopy(node.test), body=_parse_stmt("__pv_end_path()"), orelse=[]))
+        tail += copy.deepcopy(node.orelse)
         once = ast.For(target=ast.Name(id="__pv_once%d" % k, ctx=ast.Store()),
                        iter=ast.Tuple(elts=[ast.Constant(value=0)], ctx=ast.Load()),
                        body=node.body,
-                       orelse=_parse_stmt("%s.end_iter(locals())" % L), type_comment=None)
+                       orelse=tail, type_comment=None)
         arb.append(once)
         exh = _parse_stmt(hv + "%s.after_havoc(locals())\n" % L)
         if not is_for:
@@ -493,7 +671,7 @@ class Rewritten(object):
         self.source = src_new
 
 
-def rewrite(fn, cut=None, prefix=None, extra_globals=None):
+def rewrite(fn, cut=None, prefix=None, extra_globals=None, lift_lists=None):
     """Recompile `fn` (a module-level function or a plain method) with its loops cut.
     cut: iterable of loop ordinals (document order) or None for all loops."""
     fn0 = fn
@@ -508,6 +686,9 @@ def rewrite(fn, cut=None, prefix=None, extra_globals=None):
     fdef.decorator_list = []
     prefix = prefix or ("%s:%s" % (fn.__module__, fn.__qualname__))
     rw = _Rewriter(prefix, set(cut) if cut is not None else None)
+    if lift_lists:
+        ll = _ListLifter(set(lift_lists))
+        fdef.body = [ll.visit(s) if not isinstance(s, (ast.For, ast.While)) else s for s in fdef.body]
     fdef.body = _flatten([rw.visit(s) for s in fdef.body])
     ast.fix_missing_locations(tree)
     new_src = ast.unparse(tree)
@@ -518,6 +699,9 @@ def rewrite(fn, cut=None, prefix=None, extra_globals=None):
     g["__pv_loop_begin"] = loop_begin
     g["__pv_end_path"] = end_path
     g["range"] = pv_range
+    from .seq import pv_list, pv_len
+    g["__pv_list"] = pv_list
+    g["len"] = pv_len
     if extra_globals:
         g.update(extra_globals)
     fname = "<pydv-loopcut %s>" % prefix
@@ -536,4 +720,5 @@ def rewrite(fn, cut=None, prefix=None, extra_globals=None):
             REGISTRY[lid] = LoopState(lid, carried)
         else:
             REGISTRY[lid].carried = carried
+        REGISTRY[lid].mutated = dict(rw.mutated.get(lid, {}))
     return Rewritten(fn0, new_fn, rw.loops, diff, new_src)
